@@ -100,6 +100,76 @@ fn build_fix(dir: &Path, tag: &str, files: Vec<Pending>) -> Result<Fix, String> 
     Ok(fx)
 }
 
+/// Fixture "D": a 1300-file archive in which, after the build, one sector of a multi-sector member is overwritten (no sector
+/// checksums: the damage shows as a decompression error in the middle of the member) and the block-table entry of another
+/// member is pointed at the last bytes of the archive file with the sector-checksum flag set (its checksum trailer lies behind
+/// the end of the file: an I/O-kind error). The member stored right behind the damaged one is intact. What a sequential
+/// reader answers is recorded per name with a fresh handle each (no state carried from one read to the next).
+const DMG_MULTI: &str = "dmg\\multi.bin";
+const DMG_AFTER: &str = "dmg\\after.bin";
+const DMG_EOF: &str = "dmg\\eof.bin";
+
+fn build_damaged_fix(dir: &Path, rng: &mut Rng) -> Result<Fix, String> {
+    let mut files = files_many(rng, 1297, "D");
+    let at = files.len() / 2;
+    files.insert(at, Pending { name: DMG_MULTI.into(), data: gen_content(rng, "text", 20_000), method: 0x02, enc: 0 });
+    files.insert(at + 1, Pending { name: DMG_AFTER.into(), data: rng.bytes(3000), method: 0, enc: 0 });
+    files.push(Pending { name: DMG_EOF.into(), data: gen_content(rng, "text", 1500), method: 0x02, enc: 0 });
+    let truth: HashMap<String, Vec<u8>> = files.iter().map(|f| (f.name.clone(), f.data.clone())).collect();
+    let mut fx = build_fix(dir, "D", files)?;
+    let (multi, eof) = (fx.seq.find_file(DMG_MULTI).ok().flatten().ok_or("D: no multi")?, fx.seq.find_file(DMG_EOF).ok().flatten().ok_or("D: no eof")?);
+    let hdr = fx.seq.header().clone();
+    let ao = fx.seq.archive_offset();
+    let mut bytes = std::fs::read(&fx.path).map_err(|e| e.to_string())?;
+    // (a) second sector of the multi-sector member: the sector offset table sits at the start of the stored file
+    let fp = multi.file_pos as usize;
+    let rd = |b: &[u8], o: usize| u32::from_le_bytes([b[o], b[o + 1], b[o + 2], b[o + 3]]) as usize;
+    let (s1, s2) = (rd(&bytes, fp + 4), rd(&bytes, fp + 8));
+    if !(s1 < s2 && fp + s2 <= bytes.len()) {
+        return Err("D: unexpected sector table".into());
+    }
+    for x in bytes[fp + s1..fp + s2].iter_mut() {
+        *x = 0xFF;
+    }
+    // (b) block-table entry of the last member: stored bytes = the last csize bytes of the file, checksum flag set
+    let bt = (ao + hdr.get_block_table_pos()) as usize;
+    let n = hdr.block_table_size as usize;
+    let key = wow_mpq::hash_string("(block table)", 3);
+    let mut tab: Vec<u32> = (0..n * 4).map(|i| rd(&bytes, bt + 4 * i) as u32).collect();
+    wow_mpq::crypto::decrypt_block(&mut tab, key);
+    let bi = eof.block_index;
+    let csize = tab[bi * 4 + 1] as usize;
+    tab[bi * 4] = (bytes.len() - csize - ao as usize) as u32;
+    tab[bi * 4 + 3] |= 0x0400_0000;
+    wow_mpq::crypto::encrypt_block(&mut tab, key);
+    for (i, v) in tab.iter().enumerate() {
+        bytes[bt + 4 * i..bt + 4 * i + 4].copy_from_slice(&v.to_le_bytes());
+    }
+    std::fs::write(&fx.path, &bytes).map_err(|e| e.to_string())?;
+    // baselines afresh, one handle per name; every untouched member must still be what was added
+    fx.seq = Archive::open(&fx.path).map_err(|e| format!("damaged fixture does not open: {e}"))?;
+    fx.base.clear();
+    fx.src_equal = 0;
+    fx.src_differs = 0;
+    for nme in fx.names.clone() {
+        let e = match Archive::open(&fx.path).and_then(|mut a| a.read_file(&nme)) {
+            Ok(d) => Exp::Ok(Arc::new(d)),
+            Err(e) => Exp::Err(variant(&e)),
+        };
+        let intact = matches!(&e, Exp::Ok(d) if Some(&**d) == truth.get(&nme));
+        if nme == DMG_MULTI || nme == DMG_EOF {
+            if !e.is_err() {
+                return Err(format!("D: the damage to {nme} does not show in a sequential read"));
+            }
+        } else if !intact {
+            return Err(format!("D: the untouched member {nme} no longer reads back"));
+        }
+        if intact { fx.src_equal += 1 } else { fx.src_differs += 1 }
+        fx.base.insert(nme, e);
+    }
+    Ok(fx)
+}
+
 /// Names present in every fixture (different content per archive), used by the multi-archive helpers.
 const COMMON: &str = "common.txt";
 const SHARED_A: &str = "shared\\a.bin";
@@ -283,6 +353,15 @@ fn plan(thorough: bool) -> Vec<Spec> {
             }
         }
     }
+    // the damaged archive: whole content in storage order (> 1000 names: batched path) and the neighbourhood of the damage
+    // (per-file path), with and without error skipping
+    for shape in ["all", "around-damage"] {
+        for skip in [true, false] {
+            for t in [0usize, 3] {
+                v.push(Spec { api: Api::Ewc, fix: "D", threads: t, bat: Bat::F(10), shape, skip, light: true });
+            }
+        }
+    }
     // a never-added name at every position in turn (12-name request)
     for shape in MISS_AT_12 {
         for skip in [false, true] {
@@ -456,6 +535,14 @@ fn build_request(shape: &str, fx: &Fix, rng: &mut Rng) -> Vec<String> {
             (0..n).map(|_| shuffled[rng.usize(k)].clone()).collect()
         }
         "all" => names.clone(),
+        "around-damage" => {
+            // the damaged member, the intact member stored right behind it, and their neighbours, in storage order
+            let at = names.iter().position(|x| x == DMG_MULTI).unwrap_or(0);
+            let mut v: Vec<String> = names[at.saturating_sub(3)..(at + 5).min(names.len())].to_vec();
+            v.push(DMG_EOF.to_string());
+            v.extend(names.iter().take(4).cloned());
+            v
+        }
         "rev" => names.iter().rev().cloned().collect(),
         "shuffled" => shuffled,
         "first" => take(names, n.min(names.len())),
@@ -1182,6 +1269,13 @@ fn main() {
                 eprintln!("c09: {e}");
                 std::process::exit(2);
             }
+        }
+    }
+    match build_damaged_fix(&dir, &mut frng) {
+        Ok(f) => fixes.push(f),
+        Err(e) => {
+            eprintln!("c09: {e}");
+            std::process::exit(2);
         }
     }
     if run.args.shard == 0 && run.args.only.is_none() {
